@@ -143,7 +143,8 @@ var $newType = (size, kind, string, named, pkg, exported, constructor) => {
             typ.init = (elem, len) => {
                 typ.elem = elem;
                 typ.len = len;
-                typ.comparable = elem.comparable;
+                // The element type may be initialized after this type: ask it on demand.
+                Object.defineProperty(typ, "comparable", { get: () => elem.comparable });
                 typ.keyFor = x => {
                     return Array.prototype.join.call($mapArray(x, e => {
                         return String(elem.keyFor(e)).replace(/\\/g, "\\\\").replace(/\$/g, "\\$");
@@ -254,11 +255,8 @@ var $newType = (size, kind, string, named, pkg, exported, constructor) => {
             typ.init = (pkgPath, fields) => {
                 typ.pkgPath = pkgPath;
                 typ.fields = fields;
-                fields.forEach(f => {
-                    if (!f.typ.comparable) {
-                        typ.comparable = false;
-                    }
-                });
+                // The field types may be initialized after this type: ask them on demand.
+                Object.defineProperty(typ, "comparable", { get: () => fields.every(f => f.typ.comparable) });
                 typ.keyFor = x => {
                     var val = x.$val;
                     return $mapArray(fields, f => {
